@@ -1,10 +1,10 @@
 (* Proofs/C01_EqFileCover2.v - class 1 of Known_C01 narrowed a second time (task c01file4): the two arms in which
-   neither side reads a FILE base are folded into Known_C01 (Model/KnownC01.v k_file_narrow; twin
+   neither side reads a FILE base are folded into Known_C01 (Model/KnownC01.v k_file_narrow_v3; twin
    harness/src/known01.rs file_narrow):
      "file:" R against a file base, R starts with two '/' '\'          (Proofs/C01_EqFileTwo.v  class_file_two_good)
      scheme-less R that starts with two '/' '\' against a file base    (Proofs/C01_EqFileRel2.v class_file_rel2)
    each with R inside k_file_ok.  known_c01_v2 is the predicate of task c01file3 (Proofs/C01_EqFileCover.v is
-   about it, literally as before).  Here: known_c01_v2 = 0 -> known_c01 = 0; coverage of known_c01 = 0 by
+   about it, literally as before).  Here: known_c01_v2 = 0 -> known_c01_v3 = 0; coverage of known_c01_v3 = 0 by
    in_proved_class5 = in_proved_class4 + the two classes; the assembled statement (statement_all5). *)
 From Coq Require Import ZifyBool ZifyN.
 From RU Require Import Base.Prelude Base.Utf8 Base.Utf8Facts Model.AsciiSet Gen.Tables
@@ -23,49 +23,49 @@ From RU Require Import Base.Prelude Base.Utf8 Base.Utf8Facts Model.AsciiSet Gen.
   Proofs.C01_EqFileAsm Proofs.C01_EqFileCover Proofs.C01_EqFileTwo Proofs.C01_EqFileRel2.
 
 (* ================= the predicate against the former ones ================= *)
-Lemma narrow_v2_new base input : k_file_narrow_v2 base input = true -> k_file_narrow base input = true.
+Lemma narrow_v2_new base input : k_file_narrow_v2 base input = true -> k_file_narrow_v3 base input = true.
 Proof.
-  unfold k_file_narrow_v2, k_file_narrow. cbv zeta.
+  unfold k_file_narrow_v2, k_file_narrow_v3. cbv zeta.
   destruct (leading_scheme (cleaned input)) as [s|]; [|discriminate].
   destruct base as [b|]; [|exact (fun H => H)].
   intros H. apply andb_true_iff in H. destruct H as [H H3]. apply andb_true_iff in H. destruct H as [H1 H2].
   rewrite H1, H2, H3. reflexivity.
 Qed.
 
-Lemma known_split5 base input : known_c01 base input = 0 ->
-  known_c01_v1 base input = 0 \/ k_file_narrow base input = true.
+Lemma known_split5 base input : known_c01_v3 base input = 0 ->
+  known_c01_v1 base input = 0 \/ k_file_narrow_v3 base input = true.
 Proof.
-  unfold known_c01. cbv zeta.
-  destruct ((known_c01_v1 base input =? 1) && k_file_narrow base input) eqn:E.
+  unfold known_c01_v3. cbv zeta.
+  destruct ((known_c01_v1 base input =? 1) && k_file_narrow_v3 base input) eqn:E.
   - intros _. right. apply andb_true_iff in E. exact (proj2 E).
   - intros H. left. exact H.
 Qed.
 
 (* the predicate is below the one of task c01file3 (hence below known_c01_v1): whatever was outside still is *)
-Lemma known_v2_zero base input : known_c01_v2 base input = 0 -> known_c01 base input = 0.
+Lemma known_v2_zero base input : known_c01_v2 base input = 0 -> known_c01_v3 base input = 0.
 Proof.
-  unfold known_c01_v2, known_c01. cbv zeta.
+  unfold known_c01_v2, known_c01_v3. cbv zeta.
   destruct (known_c01_v1 base input =? 1) eqn:E1; cbn [andb]; [|exact (fun H => H)].
   destruct (k_file_narrow_v2 base input) eqn:E2.
   - rewrite (narrow_v2_new base input E2). reflexivity.
   - intros H. apply N.eqb_eq in E1. rewrite E1 in H. discriminate H.
 Qed.
 
-Lemma known_v1_zero5 base input : known_c01_v1 base input = 0 -> known_c01 base input = 0.
-Proof. intros H. unfold known_c01. cbv zeta. rewrite H. reflexivity. Qed.
+Lemma known_v1_zero5 base input : known_c01_v1 base input = 0 -> known_c01_v3 base input = 0.
+Proof. intros H. unfold known_c01_v3. cbv zeta. rewrite H. reflexivity. Qed.
 
 (* the classes 2-4 are untouched *)
-Lemma known_class_same5 base input : known_c01 base input <> 0 -> known_c01 base input = known_c01_v1 base input.
+Lemma known_class_same5 base input : known_c01_v3 base input <> 0 -> known_c01_v3 base input = known_c01_v1 base input.
 Proof.
-  unfold known_c01. cbv zeta. destruct ((known_c01_v1 base input =? 1) && k_file_narrow base input).
+  unfold known_c01_v3. cbv zeta. destruct ((known_c01_v1 base input =? 1) && k_file_narrow_v3 base input).
   - intros H. exfalso. apply H. reflexivity.
   - intros _. reflexivity.
 Qed.
 
 (* without a base nothing changed *)
-Lemma known_nobase_same input : known_c01 None input = known_c01_v2 None input.
+Lemma known_nobase_same input : known_c01_v3 None input = known_c01_v2 None input.
 Proof.
-  unfold known_c01, known_c01_v2, k_file_narrow, k_file_narrow_v2. cbv zeta.
+  unfold known_c01_v3, known_c01_v2, k_file_narrow_v3, k_file_narrow_v2. cbv zeta.
   destruct (leading_scheme (cleaned input)); reflexivity.
 Qed.
 
@@ -91,10 +91,10 @@ Variable shs : spec_host -> list N.
 
 (* a narrowed input is in one of the three file classes *)
 Lemma narrow_in_class5 base sbase input : full_rel dbg shs base sbase ->
-  k_file_narrow base input = true ->
+  k_file_narrow_v3 base input = true ->
   (no_file_base sbase || two_sl_file input) && in_class_file input || rel2_class sbase input = true.
 Proof.
-  intros Hb. unfold k_file_narrow. cbv zeta. rewrite cleaned_spec_clean.
+  intros Hb. unfold k_file_narrow_v3. cbv zeta. rewrite cleaned_spec_clean.
   destruct (spec_scheme (spec_clean input)) as [[sch R]|] eqn:Es.
   - destruct (spec_scheme_some_leading _ _ _ Es) as [-> ->]. intros H.
     apply andb_true_iff in H. destruct H as [H H3]. apply andb_true_iff in H. destruct H as [H1 H2].
@@ -121,7 +121,7 @@ Qed.
 
 (* coverage: outside Known_C01 every input is in a proved class *)
 Theorem all_covers5 input base sbase : full_rel dbg shs base sbase ->
-  known_c01 base input = 0 -> in_proved_class5 sbase input = true.
+  known_c01_v3 base input = 0 -> in_proved_class5 sbase input = true.
 Proof.
   intros Hb Hk. destruct (known_split5 base input Hk) as [H1|Hn].
   - apply in_proved_class5_of4, in_proved_class4_of3. exact (all_covers dbg shs input base sbase Hb H1).
@@ -174,7 +174,7 @@ Qed.
 
 (* C01_statement for Known_C01 *)
 Theorem statement_all5 input base sbase : usv_list input ->
-  full_rel dbg shs base sbase -> known_c01 base input = 0 ->
+  full_rel dbg shs base sbase -> known_c01_v3 base input = 0 ->
   host_hyp5 hp hpo hd shp shs sbase input ->
   agree_good dbg shs (parse_url dbg hp hpo hd None base input) (spec_basic_url_parse shp input sbase)
   /\ (forall su u, spec_basic_url_parse shp input sbase = BDone su -> parse_url dbg hp hpo hd None base input = POk u ->
@@ -205,7 +205,7 @@ Proof.
 Qed.
 
 Theorem statement_all5_model dbg idna : IdnaOK idna -> forall input base sbase,
-  usv_list input -> full_rel dbg spec_host_serializer base sbase -> known_c01 base input = 0 ->
+  usv_list input -> full_rel dbg spec_host_serializer base sbase -> known_c01_v3 base input = 0 ->
   agree_good dbg spec_host_serializer
     (parse_url dbg (host_parse idna) host_parse_opaque host_display None base input)
     (spec_basic_url_parse (spec_host_parser idna) input sbase)
@@ -218,7 +218,7 @@ Proof.
 Qed.
 
 Theorem statement_instance5 dbg idna : IdnaOK idna -> forall input base sbase,
-  usv_list input -> full_rel dbg spec_host_serializer base sbase -> known_c01 base input = 0 ->
+  usv_list input -> full_rel dbg spec_host_serializer base sbase -> known_c01_v3 base input = 0 ->
   statement_shape dbg spec_host_serializer
     (parse_url dbg (host_parse idna) host_parse_opaque host_display None base input)
     (spec_basic_url_parse (spec_host_parser idna) input sbase).
@@ -229,7 +229,7 @@ Qed.
 
 (* the same with a UTF-8 encoding override *)
 Theorem statement_all5_model_utf8 dbg idna : IdnaOK idna -> forall input base sbase,
-  usv_list input -> full_rel dbg spec_host_serializer base sbase -> known_c01 base input = 0 ->
+  usv_list input -> full_rel dbg spec_host_serializer base sbase -> known_c01_v3 base input = 0 ->
   agree_good dbg spec_host_serializer
     (parse_url dbg (host_parse idna) host_parse_opaque host_display (Some utf8_encode) base input)
     (spec_basic_url_parse (spec_host_parser idna) input sbase).
@@ -240,7 +240,7 @@ Qed.
 
 (* ================= what left class 1 now, what stays ================= *)
 (* against the parse result of file://h/tmp/x :
-   left class 1 (known_c01_v2 = 1, known_c01 = 0; the sides agree by the theorem):  file:///C:/a/../b ;
+   left class 1 (known_c01_v2 = 1, known_c01_v3 = 0; the sides agree by the theorem):  file:///C:/a/../b ;
      file://h2.x/a/../b?q ;  fIle:\\/y ;  //h2.x/a/../b?q ;  \\/y ;
    stay in class 1:  x ;  /x ;  file:/x ;  file:x ;  //h.x/C:/ (F-C01-1) ;  file:////foo (F-C01-3) ;
    outside as before:  #f ;  the empty reference *)
@@ -253,19 +253,19 @@ Theorem known_file_narrowed2 :
   match parse_url true (host_parse id_idna) host_parse_opaque host_display None None nar_1,
         parse_url true (host_parse id_idna) host_parse_opaque host_display None None file_base_text with
   | POk bh, POk bf =>
-      let left i := known_c01_v2 (Some bf) i = 1 /\ known_c01 (Some bf) i = 0 in
+      let left i := known_c01_v2 (Some bf) i = 1 /\ known_c01_v3 (Some bf) i = 0 in
       left fnar_1 /\ left f2_1 /\ left f2_2 /\ left f2_3 /\ left f2_4
-      /\ known_c01 (Some bf) [120] = 1 /\ known_c01 (Some bf) [47; 120] = 1
-      /\ known_c01 (Some bf) [102;105;108;101;58;47;120] = 1 /\ known_c01 (Some bf) [102;105;108;101;58;120] = 1
-      /\ known_c01 (Some bf) [47;47;104;46;120;47;67;58;47] = 1 /\ known_c01 (Some bf) fstay_1 = 1
-      /\ known_c01 (Some bf) [35; 102] = 0 /\ known_c01 (Some bf) [] = 0
+      /\ known_c01_v3 (Some bf) [120] = 1 /\ known_c01_v3 (Some bf) [47; 120] = 1
+      /\ known_c01_v3 (Some bf) [102;105;108;101;58;47;120] = 1 /\ known_c01_v3 (Some bf) [102;105;108;101;58;120] = 1
+      /\ known_c01_v3 (Some bf) [47;47;104;46;120;47;67;58;47] = 1 /\ known_c01_v3 (Some bf) fstay_1 = 1
+      /\ known_c01_v3 (Some bf) [35; 102] = 0 /\ known_c01_v3 (Some bf) [] = 0
       (* a scheme-less "//T" against a non-file base is not a file input: as before *)
-      /\ known_c01 (Some bh) f2_3 = known_c01_v2 (Some bh) f2_3 /\ known_c01 (Some bh) fnar_1 = 0
+      /\ known_c01_v3 (Some bh) f2_3 = known_c01_v2 (Some bh) f2_3 /\ known_c01_v3 (Some bh) fnar_1 = 0
   | _, _ => False
   end.
 Proof. vm_compute. repeat split. Qed.
 
-(* non-vacuity of statement_all5_model on inputs that only the predicate of this file admits: file base, known_c01 = 0,
+(* non-vacuity of statement_all5_model on inputs that only the predicate of this file admits: file base, known_c01_v3 = 0,
    in_proved_class4 = false, both sides succeed with the same ten API strings *)
 Example statement_all5_nonvacuous :
   let idna := id_idna in
@@ -273,7 +273,7 @@ Example statement_all5_nonvacuous :
   let S sbase i := spec_basic_url_parse (spec_host_parser idna) i sbase in
   match P None file_base_text, S None file_base_text with
   | POk b, BDone sb =>
-      let ok i := known_c01 (Some b) i = 0 /\ known_c01_v2 (Some b) i = 1
+      let ok i := known_c01_v3 (Some b) i = 0 /\ known_c01_v2 (Some b) i = 1
                   /\ in_proved_class4 (Some sb) i = false /\ in_proved_class5 (Some sb) i = true
                   /\ match P (Some b) i, S (Some sb) i with
                      | POk u, BDone su => api_of_model true u = Some (spec_api_list spec_host_serializer su)
